@@ -258,6 +258,29 @@ func (e *Engine) doCall(st *State, call *ssa.CallCommon, fnv Val, args []Val, re
 		setRes(res)
 		return
 	}
+	// a call through a func value whose frame the function under contract assumes
+	if key == "<dynamic func value>" {
+		if top := st.frames[0].contract; top != nil && top.HasDyn {
+			for _, a := range args {
+				st.escape(a)
+			}
+			e.havocCalls["<dynamic func value> (assumed frame: "+strings.Join(top.DynAssigns, ", ")+")"] = true
+			env := e.frameEnv(st, st.frames[0])
+			e.havocDesignators(st, env, top.DynAssigns, "dynamic call")
+			st.bumpWatermark()
+			var res Val
+			switch sig.Results().Len() {
+			case 0:
+				res = Val{K: KUnit}
+			case 1:
+				res = st.freshVal(sig.Results().At(0).Type(), "r_dyn")
+			default:
+				res = st.freshVal(sig.Results(), "r_dyn")
+			}
+			setRes(res)
+			return
+		}
+	}
 	// unknown callee: havoc
 	e.havocCall(st, key, callee, args)
 	var res Val
